@@ -374,6 +374,12 @@ func runNyctTrips(c *Ctx) {
 			okInt := !usesFloat(fs.store.Val, map[ssa.Value]bool{}, 0)
 			c.Check(okSrc && okGuard, "NYCT", fname, "start time derived from the trip id's origin time", p.ipos(fs.store), "HH:MM:SS formatted from group 1 of TripIDRegex, only when the id matches", "start_time is not derived from the first capture group of TripIDRegex under a successful match: "+clip(expr, 160))
 			c.Check(okInt, "NYCT", fname, "origin-time arithmetic is integer arithmetic", p.ipos(fs.store), "no floating-point value between the six digits and the formatted time (hundredths of a minute are truncated exactly)", "the start time is computed through floating point: some of the 600000 origin times round to the wrong second")
+			// hundredths of a minute become seconds by multiplying first and dividing afterwards (x*6/10, any a/b = 3/5): a
+			// division applied to the raw number first throws its last digit away
+			if okInt {
+				okScale, whyScale := scaledBeforeDivided(regionInstrs(c.regionOf(upd)))
+				c.Check(okScale, "NYCT", fname, "hundredths of a minute are scaled to seconds before anything is divided", p.ipos(fs.store), "the parsed number is multiplied by a and the product divided by b with a/b = 6/10; nothing else is computed from the raw number", whyScale)
+			}
 		}
 		if n == 0 {
 			c.Violated("NYCT", fname, "start time derived from the trip id's origin time", p.pos(upd.Pos()), "start_time is never derived")
@@ -491,7 +497,7 @@ func runNyctTrips(c *Ctx) {
 	// X4: stale filter table
 	{
 		fname := shortName(stale)
-		tb, err := extractTable(stale)
+		tb, err := c.extractTableComposed(stale, 0)
 		if err != nil {
 			c.Undecided("NYCT", fname, "stale filter table", p.pos(stale.Pos()), err.Error())
 		} else {
@@ -516,7 +522,14 @@ func runNyctTrips(c *Ctx) {
 			})
 			sort.Strings(want)
 			got := normaliseStaleRows(rows)
-			c.Check(strings.Join(got, "\n") == strings.Join(want, "\n"), "NYCT", fname, "stale = unassigned and first-stop time (departure, else arrival) missing or before the feed time", p.pos(stale.Pos()), fmt.Sprintf("%d-row decision table matches the definition (strict <, departure preferred, fallback on a zero time)", len(got)), "decision table differs from the definition:\n  got:  "+strings.Join(got, "\n        ")+"\n  want: "+strings.Join(want, "\n        "))
+			same := strings.Join(got, "\n") == strings.Join(want, "\n")
+			whyNot := ""
+			if !same {
+				// not the same rows: do they say the same? (a helper that splits cases differently, a sentinel value)
+				same, whyNot = tablesEquivalent(got, want)
+			}
+			_ = whyNot
+			c.Check(same, "NYCT", fname, "stale = unassigned and first-stop time (departure, else arrival) missing or before the feed time", p.pos(stale.Pos()), fmt.Sprintf("%d-row decision table matches the definition (strict <, departure preferred, fallback on a zero time)", len(got)), "decision table differs from the definition: "+whyNot+"\n  got:  "+strings.Join(got, "\n        ")+"\n  want: "+strings.Join(want, "\n        "))
 		}
 		// UpdateTrip: skip only with the extension present and the option set
 		tb2, err := extractTable(updTrip)
@@ -920,15 +933,15 @@ func runNyctAlerts(c *Ctx) {
 		}
 	}
 	// Y2: metadata only when requested
-	for _, fs := range collectFieldStores([]*ssa.Function{ua}, "proto.TranslatedString") {
+	for _, fs := range collectFieldStores(c.regionOf(ua), "proto.TranslatedString") {
 		if fs.field != "Translation" {
 			continue
 		}
-		gs := guardStrings(b, fs.store.Block())
+		gs := regionGuards(c, b, ua, fs.store.Block(), 0)
 		okG := hasGuard(gs, "+", "AddNyctMetadata") && hasGuard(gs, "+", "buildMetadata(")
 		c.Check(okG, "ALRT", fname, "NYCT metadata appended exactly when requested", p.ipos(fs.store), "append dominated by opts.AddNyctMetadata and a successful buildMetadata", "the metadata translation is appended without AddNyctMetadata being set")
 	}
-	for _, fs := range collectFieldStores([]*ssa.Function{ua}, "proto.TranslatedString_Translation") {
+	for _, fs := range collectFieldStores(c.regionOf(ua), "proto.TranslatedString_Translation") {
 		if fs.field == "Language" {
 			e := b.bind(fs.store.Val)
 			c.Check(strings.Contains(e, "nyctalerts/Metadata"), "ALRT", fname, "metadata language tag", p.ipos(fs.store), "Language = MetadataLanguage", "metadata is tagged with another language: "+clip(e, 80))
@@ -953,7 +966,7 @@ func runNyctAlerts(c *Ctx) {
 			}
 		}
 		okCause = len(got) == 3 && pw == c.constOf("proto", "Alert_MAINTENANCE") && al == c.constOf("proto", "Alert_TECHNICAL_PROBLEM") && strings.Contains(el, "proto:Alert.Cause")
-		c.Check(okCause, "ALRT", fname, "cause from the id prefix", p.ipos(fs.store), "lmm:planned_work -> MAINTENANCE, lmm:alert -> TECHNICAL_PROBLEM, otherwise the wire cause", "the cause is not derived from the id prefix as documented")
+		c.Check(okCause, "ALRT", fname, "cause from the id prefix", p.ipos(fs.store), "lmm:planned_work -> MAINTENANCE, lmm:alert -> TECHNICAL_PROBLEM, otherwise the wire cause", fmt.Sprintf("the cause is not derived from the id prefix as documented: %d alternatives, planned_work -> %s, alert -> %s, otherwise %s", len(got), clip(pw, 40), clip(al, 40), clip(el, 60)))
 	}
 	// effect from the priority table when the priority is known
 	for _, fs := range collectFieldStores([]*ssa.Function{ua}, "proto.Alert") {
@@ -989,6 +1002,113 @@ func runNyctAlerts(c *Ctx) {
 			}
 		}
 		c.Check(ok, "ALRT", fn, "priority = number after the last ':' of the sort order", p.pos(gp.Pos()), "Atoi(sortOrder[LastIndex(sortOrder, \":\")+1:])", "the Mercury priority is not parsed from the tail of the sort order")
+	}
+	// the priority is reported missing only for the three reasons there are: no Mercury selector, no ':' in the sort
+	// order, a tail that is not a number. Any further reason makes known priorities (and with them the effect and the
+	// skip decision) disappear.
+	{
+		fn := shortName(gp)
+		bad := ""
+		nFalse := 0
+		var scan func(g *ssa.Function, d int)
+		scan = func(g *ssa.Function, d int) {
+			for _, blk := range g.Blocks {
+				ret, ok := blk.Instrs[len(blk.Instrs)-1].(*ssa.Return)
+				if !ok || len(ret.Results) != 2 {
+					continue
+				}
+				check := func(flag ssa.Value, gs []string) {
+					k, isC := flag.(*ssa.Const)
+					if !isC {
+						// the answer of a helper of the library that is handed on: judged where it is made
+						if ex, isEx := flag.(*ssa.Extract); isEx && ex.Index == 1 {
+							if call, isCall := ex.Tuple.(*ssa.Call); isCall && !call.Call.IsInvoke() {
+								if h := call.Call.StaticCallee(); h != nil && p.isModuleFn(h) && !isProtoPkg(fnPkgPath(h)) && len(h.Blocks) > 0 && h.Signature.Results().Len() == 2 && d < 3 {
+									scan(h, d+1)
+									return
+								}
+							}
+						}
+						// a computed flag: it must be one of the three tests itself
+						e := b.bind(flag)
+						if !(strings.Contains(e, "strconv.Atoi(") || strings.Contains(e, "strings.LastIndex(") || strings.Contains(e, "proto.HasExtension(")) {
+							bad = "the flag returned at " + p.ipos(ret) + " is " + clip(e, 60)
+						}
+						return
+					}
+					if bv, _ := constBool(k); bv {
+						return
+					}
+					nFalse++
+					legit := hasGuard(gs, "-", "proto.HasExtension(", "E_MercuryEntitySelector") ||
+						hasGuard(gs, "+", "strings.LastIndex(", "< const:0") || hasGuard(gs, "-", "strings.LastIndex(", ">= const:0") ||
+						hasGuard(gs, "+", "strings.LastIndex(", "== const:-1") || hasGuard(gs, "-", "strings.LastIndex(", "!= const:-1") ||
+						hasGuard(gs, "+", "strconv.Atoi(", "#1 != const:nil") || hasGuard(gs, "-", "strconv.Atoi(", "#1 == const:nil")
+					if !legit {
+						bad = "`false` is answered at " + p.ipos(ret) + " under " + clip(strings.Join(gs, " "), 160)
+					}
+				}
+				if phi, isPhi := ret.Results[1].(*ssa.Phi); isPhi && phi.Block() == blk {
+					for i, e := range phi.Edges {
+						check(e, edgeGuardStrings(b, blk.Preds[i], blk))
+					}
+				} else {
+					check(ret.Results[1], guardStrings(b, blk))
+				}
+			}
+		}
+		scan(gp, 0)
+		c.Check(bad == "" && nFalse > 0, "ALRT", fn, "a priority is reported missing only when it is", p.pos(gp.Pos()), fmt.Sprintf("all %d `false` answers are under: no Mercury selector, no ':' in the sort order, or a tail that is not a number", nFalse), "the priority of an informed entity can be reported missing although the sort order carries one: "+bad+" (its effect is not mapped and a timetabled no-service alert is not skipped)")
+	}
+	// the informed entities of an elevator group are made here and only here: what is stored in InformedEntity on the
+	// elevator path is an empty list or the list itself extended by one fresh selector that has nothing but a stop id
+	for _, fs := range collectFieldStores(c.regionOf(ue), "proto.Alert") {
+		if fs.field != "InformedEntity" {
+			continue
+		}
+		ok := false
+		why := ""
+		switch {
+		case isAppendOf(fs.store.Val, fs.store.Addr):
+			el := appendedOne(fs.store.Val)
+			al, isAl := el.(*ssa.Alloc)
+			if isAl && typeName(deref(al.Type())) == "proto.EntitySelector" {
+				only := true
+				for _, r := range *al.Referrers() {
+					if fa, isFA := r.(*ssa.FieldAddr); isFA {
+						if n := fieldName(fa.X.Type(), fa.Field); n != "StopId" && n != "state" && n != "sizeCache" && n != "unknownFields" {
+							only = false
+						}
+					}
+				}
+				ok = only
+				if !only {
+					why = "the appended selector carries more than a stop id"
+				}
+			} else {
+				why = "the appended selector is not a fresh one (" + clip(b.bind(el), 60) + ")"
+			}
+		default:
+			// an empty list: a literal / make of length 0 / nil
+			switch x := fs.store.Val.(type) {
+			case *ssa.Slice:
+				if a := isLocalArrayAlloc(x.X); a != nil {
+					if at, isArr := deref(a.Type()).Underlying().(*types.Array); isArr && at.Len() == 0 {
+						ok = true
+					}
+				}
+			case *ssa.MakeSlice:
+				if k, isC := constInt(x.Len); isC && k == 0 {
+					ok = true
+				}
+			case *ssa.Const:
+				ok = x.Value == nil
+			}
+			if !ok {
+				why = "the list is set to " + clip(b.bind(fs.store.Val), 80) + ", which is neither empty nor an extension of itself"
+			}
+		}
+		c.Check(ok, "ALRT", shortName(fs.fn), "a group informs exactly the stops derived from its members' ids", p.ipos(fs.store), "InformedEntity is emptied or extended by one fresh stop-id selector", "the informed entities of an elevator alert are not rebuilt from the ids: "+why+" (selectors from the feed survive with their routes, priorities and extensions)")
 	}
 	// Y3: elevator alerts
 	efn := shortName(ue)
@@ -1163,6 +1283,71 @@ func runNyctAlerts(c *Ctx) {
 				}
 			}
 		}
+		// what the scan compares the stored stop ids with is the very stop id that is about to be appended
+		{
+			var idCell ssa.Value // the variable whose address becomes the appended selector's StopId
+			for _, fs := range collectFieldStores(c.regionOf(ue), "proto.EntitySelector") {
+				if fs.field == "StopId" {
+					idCell = fs.store.Val
+				}
+			}
+			isTheID := func(v ssa.Value, d int) bool { return false }
+			var rec func(v ssa.Value, d int) bool
+			rec = func(v ssa.Value, d int) bool {
+				if d > 3 || idCell == nil {
+					return false
+				}
+				if ld, ok := v.(*ssa.UnOp); ok && ld.Op == token.MUL && ld.X == idCell {
+					return true
+				}
+				if prm, ok := v.(*ssa.Parameter); ok {
+					idx := paramIndex(prm)
+					callers := p.Callers(prm.Parent())
+					if idx < 0 || len(callers) == 0 {
+						return false
+					}
+					for _, e := range callers {
+						if e.Site == nil || idx >= len(e.Site.Common().Args) || !rec(e.Site.Common().Args[idx], d+1) {
+							return false
+						}
+					}
+					return true
+				}
+				return false
+			}
+			isTheID = rec
+			okCmp, nCmp := true, 0
+			for _, g := range c.regionOf(ue) {
+				for _, blk := range g.Blocks {
+					for _, in := range blk.Instrs {
+						bo, ok := in.(*ssa.BinOp)
+						if !ok || (bo.Op != token.EQL && bo.Op != token.NEQ) {
+							continue
+						}
+						l, r := b.bind(bo.X), b.bind(bo.Y)
+						var other ssa.Value
+						switch {
+						case strings.Contains(l, "proto:EntitySelector.StopId") && !isNilConst(bo.Y):
+							other = bo.Y
+						case strings.Contains(r, "proto:EntitySelector.StopId") && !isNilConst(bo.X):
+							other = bo.X
+						default:
+							continue
+						}
+						if bt, isB := other.Type().Underlying().(*types.Basic); !isB || bt.Info()&types.IsString == 0 {
+							continue
+						}
+						nCmp++
+						if !isTheID(other, 0) {
+							okCmp = false
+						}
+					}
+				}
+			}
+			if idCell != nil && nCmp > 0 {
+				c.Check(okCmp, "ALRT", efn, "the duplicate test compares with the stop id that is appended", p.pos(ue.Pos()), fmt.Sprintf("all %d comparisons with stored stop ids use the variable whose address becomes the new selector's StopId", nCmp), "the scan for an existing entry compares the stored stop ids with another value than the one that is appended: platforms of a station are taken for duplicates of each other (or real duplicates are appended again)")
+			}
+		}
 		c.Check(appendGuarded && okScan, "ALRT", efn, "informed stops of a group are distinct whatever the member order", p.pos(ue.Pos()), "the new stop is appended only if a scan of all the group's informed entities found no equal stop id", "the duplicate test does not scan every informed entity of the group (e.g. only the last one): members of one stop separated by another stop's member are listed twice")
 	}
 	// elevator alerts are recognised by the id regexp; everything else is passed to the generic path unchanged
@@ -1217,7 +1402,13 @@ func storeAlternatives(b *binder, v ssa.Value) []storeAlt {
 			if st, ok := r.(*ssa.Store); ok && st.Addr == ssa.Value(x) {
 				inner := storeAlternatives(b, st.Val)
 				gs := guardStrings(b, st.Block())
-				if _, isCallish := st.Val.(*ssa.Extract); isCallish && len(inner) > 0 {
+				_, isCallish := st.Val.(*ssa.Extract)
+				if call, isCall := st.Val.(*ssa.Call); isCall {
+					if cal := call.Call.StaticCallee(); cal != nil && !isProtoPkg(fnPkgPath(cal)) {
+						isCallish = true // a helper of the library that picks the value (generated getters are leaves)
+					}
+				}
+				if isCallish && len(inner) > 0 {
 					for _, in := range inner {
 						out = append(out, storeAlt{append(append([]string{}, gs...), in.guards...), in.val})
 					}
@@ -1640,4 +1831,116 @@ func returnedTuples(fn *ssa.Function) [][]ssa.Value {
 		}
 	}
 	return out
+}
+
+// edgeGuardStrings: what is known on the edge pred -> succ: the guards of pred plus the outcome of pred's own branch.
+func edgeGuardStrings(b *binder, pred, succ *ssa.BasicBlock) []string {
+	gs := guardStrings(b, pred)
+	if iff, ok := pred.Instrs[len(pred.Instrs)-1].(*ssa.If); ok && pred.Succs[0] != pred.Succs[1] {
+		cnd, val := normalizeCond(iff.Cond, pred.Succs[0] == succ)
+		sign := "-"
+		if val {
+			sign = "+"
+		}
+		gs = append(gs, sign+b.bind(cnd))
+	}
+	return gs
+}
+
+// regionGuards: what is known at blk, a block of root or of a helper that root's region calls from exactly one place:
+// the guards inside the helper plus those at its call site (and so on up to root).
+func regionGuards(c *Ctx, b *binder, root *ssa.Function, blk *ssa.BasicBlock, d int) []string {
+	gs := guardStrings(b, blk)
+	f := blk.Parent()
+	if f == root || d > 3 {
+		return gs
+	}
+	in := map[*ssa.Function]bool{}
+	for _, g := range c.regionOf(root) {
+		in[g] = true
+	}
+	var sites []ssa.CallInstruction
+	for _, e := range c.P.Callers(f) {
+		if in[e.Caller] && e.Site != nil {
+			sites = append(sites, e.Site)
+		}
+	}
+	if len(sites) != 1 {
+		return gs
+	}
+	return append(gs, regionGuards(c, b, root, sites[0].Block(), d+1)...)
+}
+
+func regionInstrs(fns []*ssa.Function) []ssa.Instruction {
+	var out []ssa.Instruction
+	for _, f := range fns {
+		for _, b := range f.Blocks {
+			out = append(out, b.Instrs...)
+		}
+	}
+	return out
+}
+
+// scaledBeforeDivided: every arithmetic use of a number parsed by strconv.Atoi (through conversions) is a
+// multiplication by a constant a whose product is only divided by a constant b, with a/b = 3/5.
+func scaledBeforeDivided(ins []ssa.Instruction) (bool, string) {
+	n := 0
+	for _, in := range ins {
+		ex, ok := in.(*ssa.Extract)
+		if !ok || ex.Index != 0 {
+			continue
+		}
+		call, ok := ex.Tuple.(*ssa.Call)
+		if !ok || calleeName(call) != "strconv.Atoi" {
+			continue
+		}
+		var uses func(v ssa.Value, d int) (bool, string)
+		uses = func(v ssa.Value, d int) (bool, string) {
+			if d > 4 || v.Referrers() == nil {
+				return true, ""
+			}
+			for _, r := range *v.Referrers() {
+				switch x := r.(type) {
+				case *ssa.Convert:
+					if ok, why := uses(x, d+1); !ok {
+						return false, why
+					}
+				case *ssa.BinOp:
+					n++
+					if x.Op != token.MUL {
+						return false, "the raw number is used in `" + canon(x) + "` before it is scaled: for `/` or `%` its last digit (hundredths of a minute below a tenth) is lost, and the start time is rounded down to a multiple of 6 seconds"
+					}
+					a, okA := constInt(x.Y)
+					if !okA {
+						a, okA = constInt(x.X)
+					}
+					if !okA {
+						return false, "the raw number is multiplied by something that is not a constant"
+					}
+					for _, r2 := range *x.Referrers() {
+						q, isQ := r2.(*ssa.BinOp)
+						if !isQ || q.Op != token.QUO || q.X != ssa.Value(x) {
+							if _, isDbg := r2.(*ssa.DebugRef); isDbg {
+								continue
+							}
+							return false, "the scaled number is not simply divided by a constant (`" + r2.String() + "`)"
+						}
+						bk, okB := constInt(q.Y)
+						if !okB || a*10 != bk*6 {
+							return false, fmt.Sprintf("hundredths of a minute are converted with the factor %d/%d, not 6/10", a, bk)
+						}
+					}
+				case *ssa.DebugRef:
+				}
+			}
+			return true, ""
+		}
+		if ok, why := uses(ex, 0); !ok {
+			return false, why
+		}
+	}
+	if n == 0 {
+		return false, "no arithmetic on the parsed origin time was found"
+	}
+	return true, ""
 }
